@@ -24,7 +24,7 @@ from fractions import Fraction as F
 from hpstatic.effects import writes
 from hpstatic.interp import Interp, expr_term
 from hpstatic.poly import Canon
-from hpstatic.terms import (sym, intern, show, subterms, calls_in, NONE, num, kw,
+from hpstatic.terms import (is_num, sym, intern, show, subterms, calls_in, NONE, num, kw,
                             FALSE, TRUE)
 from hpstatic.weights import Weigher, NA, ZERO, ANY, UNK
 from hpstatic.xrnorm import atom_rewrite
@@ -69,6 +69,7 @@ def run(check, prog):
     center_priors(check, prog)
     center_priors_structure(check, prog)
     subimage(check, prog)
+    subimage_shapes(check, prog)
     bg_correct_guards(check, prog)
 
 
@@ -365,6 +366,61 @@ def subimage(check, prog):
                   'axis i keeps pixels [round(c_i - s_i/2), round(c_i + s_i/2)) with c '
                   'the rounded centre and (c_i, s_i) paired axis by axis', loc,
                   fail_detail=detail)
+
+
+def subimage_shapes(check, prog):
+    """T7b: the documented forms of `shape` -- an int, or an (int, int) pair for x
+    and y -- are both accepted for an ordinary image, which has three dimensions
+    (z, x, y).  The refusal must not compare the length of the pair with the
+    number of dimensions of the image."""
+    from hpstatic.logic import eval3
+    q = IP + 'subimage'
+    fd = prog.func(q)
+    loc = prog.loc(q, fd)
+    arr_, cen_, shp_ = [sym(a.arg) for a in fd.args.args[:3]]
+    bad = []
+    for scalar in (True, False):
+        def decide(t, scalar=scalar):
+            if t[0] == 'call' and t[1] == 'numpy.isscalar' and t[2] == (shp_,):
+                return scalar
+            return None
+        it = Interp(prog, max_depth=1, decide=decide, opaque=[MD + 'copy_metadata'])
+        res = it.analyze(q)
+        ndim = intern(('attr', arr_, 'ndim'))
+
+        def val(t, scalar=scalar):
+            # an ordinary image: ndim == 3; the pair has length 2; a repeated
+            # scalar has the length it was repeated to
+            if t[0] == 'cmp' and t[1] in ('==', '!=', '<', '<=', '>', '>='):
+                def num_of(x):
+                    if is_num(x):
+                        return float(x[1])
+                    if x == ndim:
+                        return 3.0
+                    if x == ('call', 'len', (shp_,), ()):
+                        return 2.0
+                    if x[0] == 'call' and x[1] == 'len' and x[2] and \
+                            x[2][0][0] == 'call' and x[2][0][1] == 'numpy.repeat' and \
+                            x[2][0][2][0] == shp_:
+                        return num_of(x[2][0][2][1])
+                    return None
+                a, b = num_of(t[2]), num_of(t[3])
+                if a is None or b is None:
+                    return None
+                import operator as op_
+                return {'==': op_.eq, '!=': op_.ne, '<': op_.lt, '<=': op_.le,
+                        '>': op_.gt, '>=': op_.ge}[t[1]](a, b)
+            return None
+        from hpstatic.logic import cond3
+        for o in res.raises:
+            if cond3(o.cond, val) is True:
+                bad.append('%s shape: refused under %s' % (
+                    'int' if scalar else '(int, int)',
+                    ' and '.join(('' if p else 'not ') + show(t)[:60] for t, p in o.cond)))
+    check.require(not bad, 'T7-subimage', 'subimage shape forms',
+                  'an int and an (int, int) pair are both accepted for a (z, x, y) image',
+                  loc, fail_detail='; '.join(bad) + ': the documented pair can never pass '
+                  'for an image, which always has the three dimensions z, x, y')
 
 
 def center_priors_structure(check, prog):
